@@ -239,7 +239,7 @@ def run(ctx):
     items += ruleprops.run_items(ctx, neartie_pairs(ctx, ctx.scale(500, 5000)), predicate, nontrivial)  # round 6 (drawn last)
     items += ruleprops.run_items(ctx, negscore_pairs(ctx, ctx.scale(500, 5000)), predicate, nontrivial)
     items += ruleprops.run_items(ctx, refuse_pairs(ctx, ctx.scale(400, 4000)), predicate, nontrivial, compare=False)  # round 8 (drawn last)
-    items += ruleprops.run_items(ctx, lazy_pairs(ctx, ctx.scale(12000, 60000)), predicate, nontrivial, compare=False)
+    items += ruleprops.run_items(ctx, lazy_pairs(ctx, ctx.scale(9000, 60000)), predicate, nontrivial, compare=False)
     ctx.extra["capped_runs"] = sum(1 for it in items if getattr(it, "capped", False))
     ctx.extra["binary_sat"] = {str(k): sum(1 for it in items if it.cfg.get("binary") == k) for k in (None, True, False)}
 
